@@ -13,7 +13,8 @@ MANIFEST = dict(
          "(uncompressed annotation matrix, elder rule with ties for H0, signed boundary annotation, highest-key pivot, column update, "
          "Field_Zp arithmetic as verified under C10, both orders of endpoints()) pairs every simplex at most once, birth before death, "
          "dim(death)=dim(birth)+1, keeps every coordinate of the annotation matrix a cocycle of the current complex and every annotation "
-         "supported on live classes of its own dimension with the killed pivot gone from every column; (iii) betti_numbers / "
+         "supported on live classes of its own dimension with the killed pivot gone from every column (for Multi_field, and any coefficient "
+         "structure, the order and dimension clause is proved as well); (iii) betti_numbers / "
          "persistent_betti_numbers / intervals_in_dimension are the stated functions of the multiset of pairs. "
          "NOT proved: that the pairs of the algorithm equal the oracle's (duality of de Silva-Morozov-Vejdemo-Johansson) and its multi-field "
          "version (C02_pcoh_full, C02_multifield_full are Definitions): this clause is checked on every generated input, for the extracted "
@@ -228,15 +229,15 @@ def gen_cubical(rng, periodic):
             n = 1
             for x, b in zip(shape, per):
                 n *= 2 * x if b else 2 * x + 1
-            if n <= 110:
+            if n <= 110 or len(shape) <= 1:
                 break
-            k = max(range(d), key=lambda i: (shape[i] if not per[i] else 0, shape[i]))
-            if per[k] and shape[k] == 3:
-                d -= 1
-                shape.pop(k)
-                per.pop(k)
+            shrinkable = [i for i in range(len(shape)) if (not per[i] and shape[i] > 1) or (per[i] and shape[i] > 3)]
+            if shrinkable:
+                shape[max(shrinkable, key=lambda i: shape[i])] -= 1
             else:
-                shape[k] -= 1
+                k = [i for i in range(len(shape)) if not per[i]] or [len(shape) - 1]
+                shape.pop(k[0])
+                per.pop(k[0])
     else:
         shape = {1: lambda: [rng.randint(1, 7)], 2: lambda: [rng.randint(1, 4), rng.randint(1, 4)],
                  3: lambda: rng.choice([[1, 1, 1], [2, 1, 1], [2, 2, 1], [1, 2, 2], [3, 2, 1], [2, 2, 2], [3, 1, 1]])}[d]()
@@ -352,7 +353,7 @@ def generate(rng, tier):
         _EXH["reps4"] = reps
         pick = reps + rng.sample(ex4, 12000)
     else:
-        pick = rng.sample(ex4, 500)
+        pick = rng.sample(ex4, 400)
     for i, c in enumerate(pick):
         cases.append(dict(opt="DFPH"[i % 4], simplices=c, origin="exhaustive"))
     # torsion stream
@@ -363,7 +364,7 @@ def generate(rng, tier):
         c, which = gen_torsion_complex(rng, opt == "P", first[i] if i < len(first) else None)
         cases.append(dict(opt=opt, simplices=c, origin="torsion:" + which))
     # random complexes
-    nrand = 5000 if thorough else 600
+    nrand = 5000 if thorough else 500
     for i in range(nrand):
         opt = "DFPH"[i % 4]
         cases.append(dict(opt=opt, simplices=gen_random_complex(rng, opt == "P"), origin="random"))
@@ -631,7 +632,7 @@ def check(ctx, replay=None):
                   [case_data(c) for c in cases if is_cubical(c)][:2]
     res.notes.append("exhaustive sub-domain: every filtered complex on <= 3 vertices with <= 3 distinct values; on 4 vertices %s of the %d"
                      % (("one representative of each of the %d orbits under vertex relabelling plus a random sample of 12000" % len(_EXH.get("reps4", [])))
-                        if ctx.tier == "thorough" else "a random sample of 500", len(_EXH.get(4, []))))
+                        if ctx.tier == "thorough" else "a random sample of 400", len(_EXH.get(4, []))))
     res.notes.append("the equality 'pairs of the cohomology algorithm = pairs of the boundary-matrix reduction' (C02_pcoh_full, C02_multifield_full) is "
                      "measured on every run above for the extracted model and for the C++; it is not a Coq theorem")
     return core.finish(ctx, None, res, TRUSTED, ASSUMPTIONS, LEVEL,
